@@ -27,6 +27,9 @@ def tla_items(m):
     outs.append('[name |-> "form", kind |-> "formula", labels |-> %s, units |-> "number"]' % q([m["formula"]]))
     pops = ['[name |-> "%s", kind |-> "plain", labels |-> %s]' % (p, q([p])) for p in m["pops"][:2]]
     pops.append('[name |-> "T", kind |-> "agg", labels |-> %s]' % q(m["pops"]))
+    if len(m["pops"]) >= 3:  # an aggregation over a proper subset of the populations, requested next to a population outside it
+        pops.append('[name |-> "S", kind |-> "agg", labels |-> %s]' % q(m["pops"][:2]))
+        pops.append('[name |-> "%s", kind |-> "plain", labels |-> %s]' % (m["pops"][2], q([m["pops"][2]])))
     return "{%s}" % ",".join(outs), "{%s}" % ",".join(pops)
 
 
@@ -41,7 +44,7 @@ def out_spec(m, name):
 
 
 def pop_spec(m, name):
-    return {"T": list(m["pops"])} if name == "T" else name
+    return {"T": list(m["pops"])} if name == "T" else {"S": list(m["pops"][:2])} if name == "S" else name
 
 
 def opt(x):
@@ -57,7 +60,7 @@ def run(prop, tier):
     cov = dict(states=0, transitions=0, traces_validated_against_impl=0, samples=[], exhaustive=True, requests=0)
     records, index = [], {}
     rid = 0
-    for mname in (["hiv", "hypertension"] if thorough else ["hiv"]):
+    for mname in ["hiv", "hypertension"]:
         m = MODELS[mname]
         P = at.demo(mname, do_run=False)
         P.framework.pars.at[m["plain_f"][1], "timescale"] = 1.0 / 12  # one quantity on a monthly timescale (none of the library frameworks has one)
@@ -69,8 +72,9 @@ def run(prop, tier):
         r, reqs = C.enumerate_cases(["Aggregate"], "MCAggregate", cfg, timeout=1800, generated={"MCAggregate.tla": mc})
         cov["states"] += r.distinct
         cov["transitions"] += r.generated
-        if not thorough and len(reqs) > 900:
-            reqs = [reqs[i] for i in rng.permutation(len(reqs))[:900]]
+        nmax = 900 if mname == "hiv" else 400
+        if not thorough and len(reqs) > nmax:
+            reqs = [reqs[i] for i in rng.permutation(len(reqs))[:nmax]]
         cov["requests"] += len(reqs)
         before = DG.result_digest(res)
         tix = [0, len(res.model.t) // 2, len(res.model.t) - 2]
@@ -110,9 +114,9 @@ def run(prop, tier):
                 rid += 1
         # arithmetic of the references against their parts (one record per time index)
         for (o, p, om, pm), v in list(ref.items()):
-            pl = m["pops"] if p == "T" else [p]
+            pl = m["pops"] if p == "T" else m["pops"][:2] if p == "S" else [p]
             labels = m["agg_n"] if o == "aggn" else m["agg_f"] if o == "aggf" else None
-            if p == "T":
+            if p in ("T", "S"):
                 # population level: parts = the same output item in each population (with the same output method)
                 parts = [reference(o, q, om, "n/a") for q in pl]
                 w = [np.array(res.model.get_pop(q).popsize(), dtype=float) for q in pl]
@@ -243,6 +247,45 @@ def run(prop, tier):
         plt.close("all")
         fn = os.path.join(C.scratch(), "export_%d.xlsx" % os.getpid())
         at.export_results(res, fn)
+        os.remove(fn)
+        # (the tables are checked on a run with four steps per year, so that aggregating over the year differs from interpolating)
+        # (tb is the library model whose plots sheet exports number-unit flows, which have a "Total (sum)" row)
+        Pq = at.demo("tb", do_run=False) if mname == "hiv" else P
+        dt0, e0 = float(Pq.settings.sim_dt), float(Pq.settings.sim_end)
+        Pq.settings.update_time_vector(dt=0.25, end=float(Pq.settings.sim_start) + 5)
+        resq = Pq.run_sim(Pq.parsets[0], store_results=False)
+        resq.name = "r"
+        Pq.settings.update_time_vector(dt=dt0, end=e0)
+        at.export_results(resq, fn)
+        # the exported tables: the "Total (sum)" row of a number quantity is the sum of its population rows (also in the sheet that
+        # aggregates over the year), compared at every exported time
+        import pandas as pd
+
+        nexp = 0
+        for sh in pd.ExcelFile(fn).sheet_names:
+            if not sh.startswith("Plot data"):
+                continue
+            df = pd.read_excel(fn, sheet_name=sh, header=None)
+            block, title = [], None
+            for _, row in list(df.iterrows()) + [(None, [np.nan] * df.shape[1])]:
+                cells = list(row)
+                if all(isinstance(c_, float) and np.isnan(c_) for c_ in cells):
+                    tot = [r_ for r_ in block if str(r_[1]).startswith("Total (sum)")]
+                    parts = [r_ for r_ in block if str(r_[0]) == "r" and not str(r_[1]).startswith("Total")]
+                    if tot and parts:
+                        for j in range(2, len(tot[0])):
+                            pv = [float(r_[j]) for r_ in parts]
+                            if np.all(np.isfinite(pv)) and np.isfinite(float(tot[0][j])):
+                                records.append(dict(id=rid, kind="arith", method="sum", obs=FX.fix(float(tot[0][j])), parts=FX.fixseq(pv), weights=[]))
+                                index[rid] = dict(model=mname, level="exported sheet '%s'" % sh, item=title, column=j, obs=float(tot[0][j]), parts=pv)
+                                rid += 1
+                                nexp += 1
+                    block, title = [], None
+                elif title is None:
+                    title = str(cells[0])
+                else:
+                    block.append(cells)
+        cov["exported_totals_checked"] = cov.get("exported_totals_checked", 0) + nexp
         os.remove(fn)
         res.get_coverage("fraction")
         res.get_alloc()
